@@ -25,6 +25,54 @@ impl Wake for Flag {
     }
 }
 
+/// A waker over `Flag` whose every callback (clone, wake, drop) ends in `yield_now()`: the library touches a
+/// request's waker exactly at the instants that matter for lost wake-ups (registering, notifying, cancelling), so
+/// these are the places where handing the processor to another thread is most revealing.
+/// Directed interleaving: a thread spins on GATE, which opens when a waker of the armed request is released (a
+/// queued request being cancelled or notified), and at the latest when the arming thread has finished its step.
+static ARMED: AtomicUsize = AtomicUsize::new(0);
+static GATE: AtomicBool = AtomicBool::new(false);
+static STEP_DONE: AtomicBool = AtomicBool::new(false);
+fn step_done() { STEP_DONE.store(true, Ordering::SeqCst); }
+fn arm(f: &Arc<Flag>) { GATE.store(false, Ordering::SeqCst); STEP_DONE.store(false, Ordering::SeqCst); ARMED.store(Arc::as_ptr(f) as usize, Ordering::SeqCst); }
+fn open_gate() { ARMED.store(0, Ordering::SeqCst); GATE.store(true, Ordering::SeqCst); }
+fn wait_gate() { while !GATE.load(Ordering::SeqCst) { std::thread::yield_now(); } }
+
+fn yielding_waker(f: Arc<Flag>) -> Waker {
+    use std::task::{RawWaker, RawWakerVTable};
+    unsafe fn clone(p: *const ()) -> RawWaker {
+        unsafe { Arc::increment_strong_count(p as *const Flag); }
+        std::thread::yield_now();
+        RawWaker::new(p, &VT)
+    }
+    unsafe fn wake(p: *const ()) {
+        let a = unsafe { Arc::from_raw(p as *const Flag) };
+        a.woken.store(true, Ordering::SeqCst);
+        a.wakes.fetch_add(1, Ordering::SeqCst);
+        drop(a);
+        std::thread::yield_now();
+    }
+    unsafe fn wake_by_ref(p: *const ()) {
+        let a = unsafe { &*(p as *const Flag) };
+        a.woken.store(true, Ordering::SeqCst);
+        a.wakes.fetch_add(1, Ordering::SeqCst);
+        std::thread::yield_now();
+    }
+    unsafe fn drop_w(p: *const ()) {
+        unsafe { Arc::decrement_strong_count(p as *const Flag); }
+        // the request whose waker is released here may be "armed": another thread waits for exactly this instant
+        if ARMED.load(Ordering::SeqCst) == p as usize {
+            ARMED.store(0, Ordering::SeqCst);
+            GATE.store(true, Ordering::SeqCst);
+            // give the gated thread time to perform its step (bounded: it may need a lock this thread still holds)
+            for _ in 0..3000 { if STEP_DONE.load(Ordering::SeqCst) { break; } std::thread::yield_now(); }
+        }
+        std::thread::yield_now();
+    }
+    static VT: RawWakerVTable = RawWakerVTable::new(clone, wake, wake_by_ref, drop_w);
+    unsafe { Waker::from_raw(RawWaker::new(Arc::into_raw(f) as *const (), &VT)) }
+}
+
 fn violation(prop: &str, msg: &str) -> ! {
     eprintln!("MIRI-VIOLATION property={prop} {msg}");
     std::process::exit(1);
@@ -61,7 +109,7 @@ fn c13_with(limit: usize, waiters: usize, cancel_first: bool) {
         reqs.push((fut, f));
     }
     for (fut, f) in &mut reqs {
-        let w = Waker::from(f.clone());
+        let w = yielding_waker(f.clone());
         let mut cx = Context::from_waker(&w);
         if fut.as_mut().poll(&mut cx).is_ready() {
             violation("C13", "token granted beyond the limit");
@@ -69,9 +117,13 @@ fn c13_with(limit: usize, waiters: usize, cancel_first: bool) {
     }
     let done = Arc::new(AtomicBool::new(false));
     let d2 = done.clone();
+    if cancel_first { arm(&reqs[0].1); } else { open_gate(); }
     let dropper = std::thread::spawn(move || {
+        // with a cancellation in flight: the first token is dropped at the instant the cancelled request lets go of its waker
+        wait_gate();
         for t in tokens {
             drop(t);
+            step_done();
             std::thread::yield_now();
         }
         d2.store(true, Ordering::SeqCst);
@@ -79,6 +131,7 @@ fn c13_with(limit: usize, waiters: usize, cancel_first: bool) {
     if cancel_first {
         std::thread::yield_now();
         drop(reqs.remove(0));
+        open_gate();
     }
     // acquirer loop on this thread: poll a request whenever its waker fired
     let mut granted: Vec<Token> = Vec::new();
@@ -87,7 +140,7 @@ fn c13_with(limit: usize, waiters: usize, cancel_first: bool) {
         let mut i = 0;
         while i < reqs.len() {
             if reqs[i].1.woken.swap(false, Ordering::SeqCst) {
-                let w = Waker::from(reqs[i].1.clone());
+                let w = yielding_waker(reqs[i].1.clone());
                 let mut cx = Context::from_waker(&w);
                 if let Poll::Ready(t) = reqs[i].0.as_mut().poll(&mut cx) {
                     granted.push(t);
@@ -124,6 +177,48 @@ fn c13_with(limit: usize, waiters: usize, cancel_first: bool) {
             }
         }
     }
+}
+
+/// All slots taken, one request queued. This thread cancels it while another thread queues a new request; the
+/// token dropped afterwards must reach the new request.
+fn c13_cancel_vs_new(limit: usize) {
+    let cfg = Config::with_conns(limit.try_into().unwrap());
+    let runner = Arc::new(cfg.async_runner());
+    let mut tokens: Vec<Token> = (0..limit).map(|_| take_token(&runner)).collect();
+    let r1 = runner.clone();
+    let mut req1: Pin<Box<dyn Future<Output = Token>>> = Box::pin(async move { r1.get_token().await });
+    let f1 = Arc::new(Flag { woken: AtomicBool::new(false), wakes: AtomicUsize::new(0) });
+    {
+        let w = yielding_waker(f1.clone());
+        let mut cx = Context::from_waker(&w);
+        if req1.as_mut().poll(&mut cx).is_ready() { violation("C13", "token granted beyond the limit"); }
+    }
+    let r2 = runner.clone();
+    let f2 = Arc::new(Flag { woken: AtomicBool::new(false), wakes: AtomicUsize::new(0) });
+    let f2b = f2.clone();
+    arm(&f1);
+    let other = std::thread::spawn(move || {
+        // queue the new request at the instant the cancelled one lets go of its waker
+        wait_gate();
+        let mut req2: Pin<Box<dyn Future<Output = Token> + Send>> = Box::pin(async move { r2.get_token().await });
+        let w = yielding_waker(f2b);
+        let mut cx = Context::from_waker(&w);
+        let r = req2.as_mut().poll(&mut cx).is_ready();
+        step_done();
+        (req2, r)
+    });
+    drop(req1);
+    open_gate();
+    let (mut req2, ready) = other.join().unwrap();
+    if ready { violation("C13", "token granted beyond the limit"); }
+    // now free one slot: the pending request must be woken and served
+    drop(tokens.pop());
+    if !f2.woken.load(Ordering::SeqCst) {
+        violation("C13", "1 slot free, 1 request pending (queued while another queued request was being cancelled), not woken (stranded slot)");
+    }
+    let w = yielding_waker(f2.clone());
+    let mut cx = Context::from_waker(&w);
+    if req2.as_mut().poll(&mut cx).is_pending() { violation("C13", "woken request polled while a slot is free did not get the token"); }
 }
 
 fn c14(ntokens: usize, droppers: usize) {
@@ -433,7 +528,10 @@ fn main() {
             c13(1, 2);
             c13_with(1, 2, true);
             c13_with(2, 3, true);
+            c13_cancel_vs_new(1);
+            c13_cancel_vs_new(2);
         }
+        Some("c13m") => { c13_cancel_vs_new(1); }
         Some("c14") => {
             c14(1, 1);
             c14(2, 2);
